@@ -33,6 +33,8 @@ type Ctx struct {
 }
 
 // Choose implements vrt.Chooser.
+//
+//go:norace
 func (c *Ctx) Choose(n int, kind vrt.Kind, label string) int {
 	cost := 0
 	if kind != vrt.Input {
@@ -41,7 +43,11 @@ func (c *Ctx) Choose(n int, kind vrt.Kind, label string) int {
 	return c.ChooseCost(n, kind, label, cost)
 }
 
-// ChooseCost is Choose with an explicit price for the alternatives.
+// ChooseCost is Choose with an explicit price for the alternatives. It is
+// //go:norace because under package sched it is called from several
+// goroutines whose hand-off is deliberately invisible to the race detector.
+//
+//go:norace
 func (c *Ctx) ChooseCost(n int, kind vrt.Kind, label string, altCost int) int {
 	i := len(c.Points)
 	ch := 0
@@ -96,6 +102,13 @@ type Stats struct {
 type Options struct {
 	Bound    int // maximum deviations; <0 = unbounded
 	MaxExecs int // 0 = no cap
+	// Stop, when non-nil, is asked before every execution; true ends the
+	// exploration (Stats.Capped is set).
+	Stop func() bool
+	// Workers > 1 shards the exploration: the root execution is run by every
+	// worker, the subtrees below the root's alternatives are dealt round-robin
+	// and this process explores those with index % Workers == Worker.
+	Worker, Workers int
 }
 
 // Explore runs body once per execution. body must be deterministic given the
@@ -130,6 +143,7 @@ func ReplayLenient(choices []int, body func(c *Ctx)) *Ctx {
 }
 
 type explorer struct {
+	child int
 	opt  Options
 	body func(c *Ctx)
 	st   Stats
@@ -137,6 +151,10 @@ type explorer struct {
 
 func (e *explorer) explore(prefix []int, expect []Point, used int) {
 	if e.opt.MaxExecs > 0 && e.st.Execs >= e.opt.MaxExecs {
+		e.st.Capped = true
+		return
+	}
+	if e.opt.Stop != nil && e.opt.Stop() {
 		e.st.Capped = true
 		return
 	}
@@ -165,6 +183,12 @@ func (e *explorer) explore(prefix []int, expect []Point, used int) {
 			continue
 		}
 		for alt := 1; alt < p.N; alt++ {
+			if len(prefix) == 0 && e.opt.Workers > 1 {
+				e.child++
+				if e.child%e.opt.Workers != e.opt.Worker {
+					continue
+				}
+			}
 			np := make([]int, i+1)
 			for j := 0; j < i; j++ {
 				np[j] = pts[j].Choice
